@@ -1312,6 +1312,14 @@ func runC19(cfg runCfg) error {
 		}
 	}
 	run.sum.Extra = map[string]interface{}{"temp_dir": "os.MkdirTemp(/verif/build, c19_*), removed at exit"}
+	for k := 0; k < cfg.n/40+5; k++ {
+		hr := newRng(cfg.seed*7919 + int64(k))
+		var ms []map[string]interface{}
+		for q := 0; q < 3+hr.Intn(3); q++ {
+			ms = append(ms, map[string]interface{}{"id": float64(q + 1), "name": hr.pick([]string{"aaaa", "bbbb", "cccc", "dddd"}), "sub": map[string]interface{}{"k": hr.pick(strPool)}})
+		}
+		runHeld(run, heldCase{Kind: "held-results", Enc: []string{"Gob", "Json"}, Maps: ms})
+	}
 	return run.finish()
 }
 
